@@ -1862,7 +1862,10 @@ def getslice(interp, base: Any, lo: Any, hi: Any, step: Any) -> Any:
     if isinstance(base, AList) and all(x is None or isinstance(x, int) for x in (lo, hi, step)):
         return AList(base.items[lo:hi:step])
     if isinstance(base, ExtObj) and base.kind == "bytes:header":
-        return base.attrs["data"][lo:hi:step]
+        # a slice of header bytes is still header bytes of the same provenance (exactness is kept)
+        attrs = dict(base.attrs)
+        attrs["data"] = base.attrs["data"][lo:hi:step]
+        return ExtObj("bytes:header", attrs)
     if isinstance(base, Obj) and base.tuple_items is not None:
         return base.tuple_items[lo:hi:step]
     if isinstance(base, Obj) and isinstance(base.attrs.get("data"), AList) and all(x is None or isinstance(x, int) for x in (lo, hi, step)):
